@@ -1128,10 +1128,21 @@ def run_shard(spec):
         if len(res["samples"]) < 2 and mon.nontrivial:
             res["samples"].append({"A": case["A"], "B": case["B"], "relation": case["relation"]})
         res["violations"].extend(mon.viol)
+    # history-dependent: one footprint object composed at very different heights in sequence
+    from rt import footprint_reuse
+
+    v, c = footprint_reuse.run(spec["seed"] * 131 + spec["shard"])
+    res["violations"].extend(v)
+    for k, n in c.items():
+        res["counters"][k] = res["counters"].get(k, 0) + n
     return res
 
 
 def replay(w):
+    if w.get("check") == "footprint-reuse":
+        from rt import footprint_reuse
+
+        return footprint_reuse.run(w["seed"])[0]
     C, S = {}, {}
     case = {k: w[k] for k in ("A", "B", "relation", "pseed", "nprobe")}
     case["all_lazy_ops"] = True
